@@ -75,6 +75,21 @@ _cmdline_parser.add_argument(
 )
 
 
+def _ancestor_omitted_callers(data_type):
+    """
+    The callers for which any ancestor of data_type omits a member. Every
+    class carries the tables of the callers of all its ancestors, so the
+    parent's table exists for each of them (get_all_omitted_callers() only
+    looks at a type's own members).
+    """
+    callers = set()
+    parent_type = data_type.parent_type
+    while parent_type:
+        callers |= parent_type.get_all_omitted_callers()
+        parent_type = parent_type.parent_type
+    return callers
+
+
 class PythonTypesBackend(CodeBackend):
     """Generates Python modules to represent the input Stone spec."""
 
@@ -426,8 +441,7 @@ class PythonTypesBackend(CodeBackend):
         # As an edge case, we union omitted callers with None in the case when the object has no
         # public fields, as we still need to generate public attributes (`_field_names_` etc)
         child_omitted_callers = data_type.get_all_omitted_callers() | {None}
-        parent_omitted_callers = data_type.parent_type.get_all_omitted_callers() if \
-            data_type.parent_type else set()
+        parent_omitted_callers = _ancestor_omitted_callers(data_type)
 
         for omitted_caller in sorted(child_omitted_callers | parent_omitted_callers, key=str):
             is_public = omitted_caller is None
@@ -883,8 +897,7 @@ class PythonTypesBackend(CodeBackend):
 
         # generate _all_fields_ for each omitted caller (and public)
         child_omitted_callers = data_type.get_all_omitted_callers()
-        parent_omitted_callers = data_type.parent_type.get_all_omitted_callers() if \
-            data_type.parent_type else set()
+        parent_omitted_callers = _ancestor_omitted_callers(data_type)
 
         all_omitted_callers = child_omitted_callers | parent_omitted_callers
         if len(all_omitted_callers) != 0:
